@@ -200,6 +200,6 @@ Example init_like_names_are_ordinary_files :
 Proof. vm_compute. repeat split; reflexivity. Qed.
 
 Lemma is_module_folder_name_last c q n :
-  is_module_folder_name c (q ++ [Norm n]) =
+  is_module_folder_name c (q ++ [Norm n])%list =
   bytes_eqb n (module_folder_name c) || opt_bytes_eqb (name_stem n) (module_folder_name c).
 Proof. unfold is_module_folder_name. rewrite file_stem_snoc, file_name_snoc. reflexivity. Qed.
